@@ -321,7 +321,7 @@ fn programs(thorough: bool) -> Vec<(Program, String)> {
     // ~10k, thorough ~400k.
     let deep = "2".to_string();
     let wide = "1".to_string();
-    let many = "d2".to_string(); // programs with >= 5 threads: deviation bound
+    let many = "d1".to_string(); // programs with >= 5 threads: deviation bound (d2 did not fit the budget)
     if !thorough {
         // Quick tier: an explicit small family (about 6k executions in total).
         let mk = |processors, w, spawners: Vec<(usize, Vec<SpawnKind>)>, concurrent_drop, keep_scheduler| Program { processors, workers_per_processor: w, spawners, concurrent_drop, keep_scheduler };
@@ -345,7 +345,7 @@ fn programs(thorough: bool) -> Vec<(Program, String)> {
         // two workers on the processor
         let w2: Vec<Vec<SpawnKind>> = if thorough { seqs1.iter().chain(seqs2.iter()).cloned().collect() } else { vec![vec![Regular]] };
         for ops in &w2 {
-            v.push((Program { processors: 1, workers_per_processor: 2, spawners: vec![(0, ops.clone())], concurrent_drop, keep_scheduler }, wide.clone()));
+            v.push((Program { processors: 1, workers_per_processor: 2, spawners: vec![(0, ops.clone())], concurrent_drop, keep_scheduler }, "d2".to_string()));
         }
         // two spawners, same processor / different processors
         let pairs: Vec<(Vec<SpawnKind>, Vec<SpawnKind>)> = if thorough {
